@@ -116,6 +116,22 @@ def key_origin(ctx, f, expr, node, depth=0):
     if isinstance(expr, ast.Name):
         R = ctx.R(f)
         cb = R.comp_of_name.get(id(expr))
+        if cb is not None and cb[0] == 'iter':
+            it, idx = cb[1], cb[2]
+            if isinstance(it, ast.Call) and isinstance(it.func, ast.Name) and it.func.id == 'map' and len(it.args) == 2:
+                fake = ast.Call(func=it.args[0], args=[ast.Name(id='_', ctx=ast.Load())], keywords=[])
+                ast.copy_location(fake, it)
+                ast.fix_missing_locations(fake)
+                res = env.resolve_call(fake)
+                if res[0] == 'func' and len(idx) == 1:
+                    callee = res[1]
+                    for n in own_nodes(callee.node):
+                        if isinstance(n, ast.Return) and isinstance(n.value, ast.Tuple) and idx[0] < len(n.value.elts):
+                            return key_origin(ctx, callee, n.value.elts[idx[0]], ctx.cfg(callee).node_of(n), depth + 1)
+            if isinstance(it, ast.Call) and isinstance(it.func, ast.Attribute) and it.func.attr in ('items', 'keys') \
+                    and idx in ((0,), ()):
+                return ('dictkey',)
+            return None
         defs = cfg.reaching(node, expr.id) if node is not None else []
         if cb is None and len(defs) == 1:
             d = defs[0]
